@@ -281,6 +281,7 @@ fn run_history_lsp(spec: &WsSpec, ops: &[HOp], root: &Path) -> HRes {
             log.push((rel(root, &p), t.value().as_ref().clone()));
         }
     }
+    let scan_len = log.len();
     let mut opened: std::collections::BTreeSet<String> = Default::default();
     let mut touched: BTreeMap<String, usize> = BTreeMap::new();
     let mut version = 1;
@@ -304,7 +305,7 @@ fn run_history_lsp(spec: &WsSpec, ops: &[HOp], root: &Path) -> HRes {
         if !parses(text) {
             res.count("probe.parse_failure_kept_old_data");
         }
-        check_fresh_twin(&mut res, &live, &log, root, step);
+        check_fresh_twin(&mut res, &live, &log, root, step, scan_len);
         if !res.violations.is_empty() {
             break;
         }
@@ -398,7 +399,7 @@ fn run_history(prop: &str, spec: &WsSpec, ops: &[HOp], root: &Path) -> HRes {
         match prop {
             "C06" => {
                 if matches!(op, HOp::Analyze { .. }) {
-                    check_fresh_twin(&mut res, &live, &log, root, step);
+                    check_fresh_twin(&mut res, &live, &log, root, step, 0);
                 }
             }
             "C04" => {
@@ -425,7 +426,7 @@ fn run_history(prop: &str, spec: &WsSpec, ops: &[HOp], root: &Path) -> HRes {
 
 /// C06: fresh twin from the latest valid content of each file, in the order of each file's last
 /// successful analysis.
-fn check_fresh_twin(res: &mut HRes, live: &Arc<FixtureDatabase>, log: &[(String, String)], root: &Path, step: usize) {
+fn check_fresh_twin(res: &mut HRes, live: &Arc<FixtureDatabase>, log: &[(String, String)], root: &Path, step: usize, scan_len: usize) {
     let mut last_valid: BTreeMap<String, (usize, String)> = BTreeMap::new();
     for (i, (f, t)) in log.iter().enumerate() {
         if parses(t) {
@@ -448,8 +449,10 @@ fn check_fresh_twin(res: &mut HRes, live: &Arc<FixtureDatabase>, log: &[(String,
         return;
     }
     // undeclared findings of the document changed last (only when that last change was valid)
-    if let Some((_, lastf, _)) = order.last() {
-        if log.last().map(|(f, _)| f) == Some(lastf) {
+    // (`scan_len` leading log entries stand for the initial scan, whose per-file order is not the log's:
+    // a document whose last successful analysis is the scan itself was analysed at an unknown instant)
+    if let Some((idx, lastf, _)) = order.last() {
+        if log.last().map(|(f, _)| f) == Some(lastf) && *idx >= scan_len {
             let p = root.join(lastf);
             let ua: Vec<String> = live.get_undeclared_fixtures(&p).iter().map(|u| format!("{}@{}:{}", u.name, u.line, u.start_char)).collect();
             let ub: Vec<String> = twin.get_undeclared_fixtures(&p).iter().map(|u| format!("{}@{}:{}", u.name, u.line, u.start_char)).collect();
